@@ -58,7 +58,7 @@ func ruleR04a(c *Check) {
 		lockCache[fn] = l
 		return l
 	}
-	for _, g := range guardTable {
+	checkGuard := func(g guard) {
 		key := fk(g.T, g.Field)
 		n := 0
 		for _, fn := range c.P.Funcs {
@@ -84,6 +84,26 @@ func ruleR04a(c *Check) {
 						c.OK("R04a", okey, "exempt: "+why, c.P.InstrPos(fa))
 						continue
 					}
+					// a method that is only ever called where the access would be exempt (after the join of
+					// the goroutines, or before the first one is started)
+					if callers := c.G.CallersOf(fn); len(callers) > 0 && fn.Signature.Recv() != nil {
+						all := true
+						why := ""
+						for _, cs := range callers {
+							w := ""
+							if _, isCall := cs.(*ssa.Call); isCall {
+								w = exemptAccess(c, cs.Parent(), cs)
+							}
+							if w == "" {
+								all = false
+							}
+							why = w
+						}
+						if all {
+							c.OK("R04a", okey, "exempt at every call site of "+c.P.FuncName(fn)+": "+why, c.P.InstrPos(fa))
+							continue
+						}
+					}
 					kind := "read"
 					if isWriteAccess(fa) {
 						kind = "written"
@@ -95,6 +115,9 @@ func ruleR04a(c *Check) {
 		if n == 0 {
 			c.Unknown("R04a", "guarded/"+key.String(), "anchor-unresolved: guarded field not found", "-")
 		}
+	}
+	for _, g := range guardTable {
+		checkGuard(g)
 	}
 	// the loader's shared package map (locals of the function that spawns the loader goroutines)
 	var lpFn *ssa.Function
@@ -119,7 +142,38 @@ func ruleR04a(c *Check) {
 			}
 		}
 		if mapVar == nil || muVar == nil {
-			c.Unknown("R04a", "guarded/loading.LoadPackages.packages", "anchor-unresolved: shared package map or its mutex not found", "-")
+			// the shared map may live in a small struct of the loading package together with its mutex
+			found := false
+			if lpFn.Pkg != nil {
+				scope := lpFn.Pkg.Pkg.Scope()
+				for _, name := range scope.Names() {
+					tn, ok := scope.Lookup(name).(*types.TypeName)
+					if !ok {
+						continue
+					}
+					st, ok := tn.Type().Underlying().(*types.Struct)
+					if !ok {
+						continue
+					}
+					mapF, muF := "", ""
+					for i := 0; i < st.NumFields(); i++ {
+						ft := st.Field(i).Type()
+						if m, ok := ft.Underlying().(*types.Map); ok && engine.TypeKey(m.Elem()) == "model.Package" {
+							mapF = st.Field(i).Name()
+						}
+						if ft.String() == "sync.Mutex" || ft.String() == "sync.RWMutex" {
+							muF = st.Field(i).Name()
+						}
+					}
+					if mapF != "" && muF != "" {
+						found = true
+						checkGuard(guard{engine.TypeKey(tn.Type()), mapF, muF, "the package map shared by the loader goroutines, kept with its mutex in one struct"})
+					}
+				}
+			}
+			if !found {
+				c.Unknown("R04a", "guarded/loading.LoadPackages.packages", "anchor-unresolved: shared package map or its mutex not found", "-")
+			}
 		} else {
 			want := engine.ExprKey(muVar)
 			for _, fn := range engine.AnonFuncsDeep(lp) {
